@@ -151,7 +151,7 @@ class Ref:
                 if anc and desc:
                     raise _Unspec('unregistered intermediate class')
             for op in (c.get('savorize') or []):
-                if op[0].startswith('sab_'):
+                if op[0].startswith('sab_') or op[0] == 'raise_seasoning_bare':
                     raise _Unspec('sabotaging savorizer')
             if len(c.get('bases', [])) > 1:
                 self.rule('model-multiple-inheritance')
